@@ -34,6 +34,36 @@ def r1_reducer_siblings(ctx):
                                 label, f, " and build applies" if label == "compact" and f in build_reads else ""),
                             work=1)
 
+    # sibling agreement on HOW the header state is applied: the Some(..) arm of
+    # each `if let Some(x) = self.<field>` makes the same calls in both
+    def applied(fn):
+        body = cfg.code_body(ws, fn)
+        out = {}
+        for es in cfg.enum_switches(body):
+            if es.enum != "core::option::Option" or "Some" not in es.targets:
+                continue
+            fs = [f for f in cfg.place_fields(es.place) if f in state]
+            if not fs:
+                continue
+            calls = idioms.arm_calls(body, es).get("Some", [])
+            regs = idioms.arm_regions(body, es).get("Some", set())
+            stores = sorted({"store:" + ".".join(x for x in cfg.place_proj(st["d"]) if x == "*" or x.startswith("f"))
+                             for i in regs for st in body.blocks[i]["s"]
+                             if st.get("d") and ".*" in st["d"] and st.get("k") in ("use", "agg")})
+            out[fs[0]] = (sorted(cname(t) for _i, t in calls) + stores, cfg.loc(body, es.block))
+        return out
+    ab, ac = applied(fns["build"]), applied(fns["compact"])
+    for f in sorted(set(ab) | set(ac)):
+        if f == "secrets" or f == "vault":
+            continue
+        k = "%s|applies-alike:%s" % (REDUCER, f)
+        if f in ab and f in ac and ab[f][0] == ac[f][0]:
+            r.ok(k, ac[f][1], "build and compact both apply `%s` with %s" % (f, ab[f][0]), work=2)
+        else:
+            r.violation(k, (ac.get(f) or ab.get(f))[1],
+                        "build applies `%s` with %s but compact with %s: the compacted log no longer replays to the folder that build() gives" % (
+                            f, (ab.get(f) or [None])[0], (ac.get(f) or [None])[0]), work=2)
+
 
 def r2_rekey_flows(ctx):
     ws = ctx.ws
@@ -175,6 +205,83 @@ def r4_password_change_complete(ctx):
                 r.violation(k, cfg.loc(body, i), "%s is not given the new key produced by ChangePassword::build" % cname(t), work=1)
 
 
+COMPARISON = "sos_account::convert::CipherComparison"
+
+
+def _reads_field(body, bi, fname):
+    blk = body.blocks[bi]
+    places = []
+    for st in blk["s"]:
+        if st.get("p"):
+            places.append(st["p"])
+        for o in st.get("ops", []) or []:
+            p_ = cfg.op_place(o)
+            if p_:
+                places.append(p_)
+    t = blk.get("term") or {}
+    for o in t.get("args", []) or []:
+        p_ = cfg.op_place(o)
+        if p_:
+            places.append(p_)
+    return any(fname in cfg.place_fields(p_) for p_ in places)
+
+
+def r5_cipher_change_runs(ctx):
+    """change_cipher may skip the conversion only when nothing needs converting."""
+    ws = ctx.ws
+    r = ctx.rule("C12-R5", "change_cipher skips the conversion only when neither the identity folder nor any user folder needs converting",
+                 floor=3, kind="K2 dominance (edge) + K5 field coverage")
+    ie = ws.fn(COMPARISON + "::is_empty")
+    adt = ws.adts.get(COMPARISON)
+    if not ie or not adt:
+        r.anchor_missing("CipherComparison::is_empty")
+        return
+    work = [f["name"] for f in adt["variants"][0]["fields"]
+            if re.match(r"(core::option::Option|alloc::vec::Vec|std::collections::|indexmap::)", f["ty"])]
+    body = ie.main
+    live = cfg.live_blocks(body)
+    for bi, st, is_term in cfg.defs_of(body).get(0, []):
+        if bi not in live:
+            continue
+        if not is_term and st.get("k") == "use":
+            c = cfg.op_const(st["ops"][0])
+            if c is not None and c.get("b") is False:
+                continue
+        for f in work:
+            rf = [i for i in live if _reads_field(body, i, f)]
+            k = "%s::is_empty|true-needs:%s" % (COMPARISON, f)
+            if not rf:
+                r.violation(k, cfg.loc(body), "is_empty never looks at `%s`" % f, work=1)
+            elif bi in rf or 0 in rf or bi not in cfg.reach(body, [0], cut_blocks=rf):
+                r.ok(k, cfg.loc(body, bi), "a non-false answer is given only after `%s` was inspected" % f, work=len(live))
+            else:
+                r.violation(k, cfg.loc(body, bi),
+                            "is_empty can answer true without looking at `%s`: a conversion that still has work in `%s` is treated as empty and change_cipher returns Ok without converting" % (f, f),
+                            work=len(live), witness=cfg.path_lines(body, cfg.find_path(body, [0], [bi], cut_blocks=rf)))
+    for fn in ws.find_fns(r"::change_cipher$"):
+        if fn.crate in idioms.TEST_CRATES:
+            continue
+        b = cfg.code_body(ws, fn)
+        calls = list(idioms.real_calls(b))
+        conv = [i for i, t in calls if cname(t) == "convert_cipher"]
+        if not conv:
+            continue   # delegating implementations
+        k = fn.root + "|skip-only-if-empty"
+        gate = [(i, t) for i, t in calls if (t.get("callee") or "").endswith("CipherComparison::is_empty")]
+        oks = [e.block for e in cfg.exits(b) if e.kind == "ok"]
+        cut_edges = set()
+        for gi, gt in gate:
+            bs = cfg.bool_switch(b, gt.get("t")) if gt.get("t") is not None else None
+            if bs:
+                cut_edges.add((bs.block, bs.true_t))
+        bad = [x for x in oks if x in cfg.reach(b, [0], cut_blocks=conv, cut_edges=cut_edges)]
+        if bad:
+            r.violation(k, cfg.loc(b, bad[0]), "change_cipher can return Ok without convert_cipher on a path that does not pass `conversion.is_empty() == true`",
+                        work=len(b.blocks), witness=cfg.path_lines(b, cfg.find_path(b, [0], bad, cut_blocks=conv, cut_edges=cut_edges)))
+        else:
+            r.ok(k, cfg.loc(b, conv[0]), "every Ok exit either runs convert_cipher or passes the is_empty()==true edge", work=len(b.blocks))
+
+
 def run(ctx):
     ctx.explanation = (
         "Sibling-agreement, value-flow and ordering rules: (R1) the reducer fields written by reduce are all read by "
@@ -183,9 +290,10 @@ def run(ctx):
         "(R3) compaction builds its diff from reduce().compact(), a checkpoint from a temporary log fed the same "
         "events, then replace_all_events, refresh_vault and the account event; (R4) change_password performs "
         "update_vault, refresh_vault, unlock, save_folder_password and the account event with the new key on every "
-        "successful path. Decides which state and which key flow where; equality of decrypted contents is not decided.")
+        "successful path; (R5) change_cipher skips convert_cipher only on the is_empty()==true edge, and CipherComparison::is_empty answers true only after inspecting every work list. Decides which state and which key flow where; equality of decrypted contents is not decided.")
     ctx.trust("rustc MIR field projections identify reducer fields")
     r1_reducer_siblings(ctx)
     r2_rekey_flows(ctx)
     r3_compaction_sequence(ctx)
     r4_password_change_complete(ctx)
+    r5_cipher_change_runs(ctx)
